@@ -33,6 +33,11 @@ def run(ck):
         ck.guard("C04-R6", r5_wrappers, ck, F, "C04-R6")
         ck.guard("C04-R6", r7_mirror, ck, F, "C04-R6")
         ck.guard("C04-R6", r3_reset, ck, F, "C04-R6")
+        # positioning goes through the seeks: their comparison tables are a necessary condition here too
+        from .c02 import r2_descent, r3_rel, r4_offsets
+        ck.guard("C04-R7", r2_descent, ck, F, "C04-R7")
+        ck.guard("C04-R7", r3_rel, ck, F, "C04-R7")
+        ck.guard("C04-R7", r4_offsets, ck, F, "C04-R7")
     ck.exhaustive = True
     ck.trusted += ["rustc MIR construction", "core::cmp slice ordering", "std::ops::Bound / RangeBounds for (Bound<T>, Bound<T>)"]
 
